@@ -40,13 +40,13 @@ def hook(ev, scope, other):
             t['ids'][id(m)] = len(t['ids']) + 1
             spec = m.get(glom.Spec)
             kind = WRAP.get(type(spec), 'other')
-            mode = MODES.get(m[MODE])
+            mode = MODES.get(scope[MODE])     # the mode in force for this scope, wherever it is stored
             if mode is None:
                 t['custom'] = True
                 mode = 'OTHER'
             if len(t['events']) < LIMIT:
                 t['events'].append({'a': 'enter', 'f': t['ids'][id(m)], 'par': t['ids'][id(pm)], 'mode': mode,
-                                    'minmode': m[MIN_MODE] is not None, 'kind': kind})
+                                    'minmode': scope[MIN_MODE] is not None, 'kind': kind})
         elif ev == 'chain':
             t = FRAME_TREE.get(id(scope.maps[0]))
             if t is not None and id(other.maps[0]) in t['ids'] and len(t['events']) < LIMIT:
